@@ -6,17 +6,16 @@ ffcx/naming.py and ffcx/codegeneration/jit.py by the correspondence run of harne
 SHA-1 is an uninterpreted function `sha1`; where a theorem needs it, injectivity on the strings
 at hand is an explicit hypothesis (trusted base: "SHA-1 taken as injective on the inputs explored").
 
+The evaluation points of an expression enter the string as dtype.str ++ str(shape) ++ the hex SHA-1 of
+their bytes (`pointsKey digest`); that inner digest is an uninterpreted parameter too, with the
+hypotheses "40 hex characters" and "injective on the explored byte strings `D`" explicit.
+
 Status of the theorems
-  join_inj, concat_fixed_inj, tag_inj, options_sorted_inj, options_order_indep, encode_stable,
-  ident_valid, alias_valid, names_distinct                     full (all inputs of the model)
-  encode_inj_partial                                           partial: needs `PrefixCode reprP`
-      (repr(points) can be read back).  The full statement
-          ∀ r₁ r₂, encodeRequest npRepr env r₁ = encodeRequest npRepr env r₂ → r₁.objs = r₂.objs ∧ …
-      is FALSE for NumPy's repr: `encode_inj_counterexample` (rounding to 8 digits) and
-      `encode_inj_counterexample_elided` (summarisation above 1000 entries) — DESIGN §7 F4.
-  names_distinct_counterexample                                the premise "tags distinct" of
-      `names_distinct` fails for two integration domains with equal (type, subdomain id) — F12 —
-      and for a repeated expression.
+  join_inj, concat_fixed_inj, tag_inj, reprFlt_inj, options_sorted_inj, options_order_indep,
+  encode_objs_tag_inj, encode_inj, encode_stable, ident_valid, alias_valid, names_distinct,
+  integralPre_inj, expressionPre_inj, expression_names_distinct       full (all inputs of the model)
+  names_distinct_counterexample        the premise "keys distinct" of `names_distinct` fails for two
+      integration domains with equal (type, subdomain id) — DESIGN §7 F12, a known finding.
 -/
 import FfcxProofs.Lemmas.Names
 
@@ -51,15 +50,21 @@ theorem tag_inj :
     (∀ p q i j, formTag p i = formTag q j → p = q ∧ i = j) ∧
     (∀ p q t u i j (a b : List Scalar), (∀ v ∈ a, v.Simple) → (∀ v ∈ b, v.Simple) →
       integralTag p t i a = integralTag q u j b → p = q ∧ t = u ∧ i = j ∧ a = b) ∧
-    (∀ p q, expressionTag p = expressionTag q → p = q) := by
-  refine ⟨?_, ?_, fun _ _ h => h⟩
+    (∀ p q i j, expressionTag p (some i) = expressionTag q (some j) → p = q ∧ i = j) ∧
+    (∀ p q, expressionTag p none = expressionTag q none → p = q) := by
+  refine ⟨?_, ?_, ?_, fun _ _ h => h⟩
   · intro p q i j h
     have := formTag_prefix p q i j [] [] (by simpa using h)
     exact ⟨this.1, this.2.1⟩
   · intro p q t u i j a b ha hb h
     have := integralTag_prefix p q t u i j a b [] [] ha hb (by simpa using h)
     exact ⟨this.1, this.2.1, this.2.2.1, this.2.2.2.1⟩
+  · intro p q i j h
+    have h' : formTag p i = formTag q j := h
+    have := formTag_prefix p q i j [] [] (by simpa using h')
+    exact ⟨this.1, this.2.1⟩
 
+example : expressionTag (cs! "libffcx_expressions_ab") (some 1) = cs! "('libffcx_expressions_ab', 1)" := by decide
 example : integralTag (cs! "m") (cs! "cell") 0 [.str (cs! "otherwise")] =
     cs! "('m', 'cell', 0, ('otherwise',))" := by decide
 example : integralTag (cs! "m") (cs! "exterior_facet") 1 [.int 1, .int 2] =
@@ -108,17 +113,18 @@ example : reprFlt (.fin false [1] (-13)) = cs! "1e-14" ∧ reprFlt (.fin false [
 
 /-! ## The pre-hash string -/
 
-def Objs.WF : Objs P → Prop
+/-- Signatures are 128 hex characters; the points of expressions satisfy `S`. -/
+def Objs.WF (S : P → Prop) : Objs P → Prop
   | .forms sigs => ∀ s ∈ sigs, IsSig s
-  | .exprs es => ∀ e ∈ es, IsSig e.1
+  | .exprs es => ∀ e ∈ es, IsSig e.1 ∧ S e.2
 
 def Env.WF (env : Env) : Prop := ';' ∉ env.version ∧ ';' ∉ env.ufcxHash
 
 theorem not_semi_of_hex {c : Char} (h : isHexChar c = true) : c ≠ ';' := by
   rintro rfl; revert h; decide
 
-theorem objectSignature_no_semi {reprP : P → Str} (hsemi : ∀ p, ';' ∉ reprP p) {o : Objs P}
-    (h : o.WF) : ';' ∉ objectSignature reprP o := by
+theorem objectSignature_no_semi {S : P → Prop} {reprP : P → Str} (hsemi : ∀ p, S p → ';' ∉ reprP p)
+    {o : Objs P} (h : o.WF S) : ';' ∉ objectSignature reprP o := by
   intro hm
   cases o with
   | forms sigs =>
@@ -129,13 +135,14 @@ theorem objectSignature_no_semi {reprP : P → Str} (hsemi : ∀ p, ';' ∉ repr
     simp only [objectSignature, List.mem_flatten, List.mem_map] at hm
     obtain ⟨_, ⟨e, he, rfl⟩, hc⟩ := hm
     rcases List.mem_append.mp hc with hc | hc
-    · exact not_semi_of_hex ((h e he).2 _ hc) rfl
-    · exact hsemi _ hc
+    · exact not_semi_of_hex ((h e he).1.2 _ hc) rfl
+    · exact hsemi _ (h e he).2 hc
 
-/-- `compute_signature` separates object lists and tags, provided `repr(points)` can be read back
-(`PrefixCode`) and has no `;`. -/
-theorem encode_objs_tag_inj {reprP : P → Str} (hP : PrefixCode reprP) (hsemi : ∀ p, ';' ∉ reprP p)
-    {env : Env} (henv : env.WF) {o₁ o₂ : Objs P} (h₁ : o₁.WF) (h₂ : o₂.WF) {t₁ t₂ s : Str}
+/-- `compute_signature` separates object lists and tags, provided the text standing for the points
+can be read back (`PrefixCodeOn S`) and has no `;`. -/
+theorem encode_objs_tag_inj {S : P → Prop} {reprP : P → Str} (hP : PrefixCodeOn S reprP)
+    (hsemi : ∀ p, S p → ';' ∉ reprP p)
+    {env : Env} (henv : env.WF) {o₁ o₂ : Objs P} (h₁ : o₁.WF S) (h₂ : o₂.WF S) {t₁ t₂ s : Str}
     (e₁ : encode reprP env o₁ t₁ = some s) (e₂ : encode reprP env o₂ t₂ = some s) :
     o₁ = o₂ ∧ t₁ = t₂ := by
   unfold encode at e₁ e₂
@@ -195,25 +202,33 @@ theorem encode_objs_tag_inj {reprP : P → Str} (hP : PrefixCode reprP) (hsemi :
       revert hkk; decide
     | exprs l₂ =>
       simp only [objectSignature] at hos
-      rw [flatten_sig_payload_inj hP (n := 128) (by decide) (fun e m => (h₁ e m).1)
-        (fun e m => (h₂ e m).1) hos]
+      rw [flatten_sig_payload_inj hP (n := 128) (by decide) (fun e m => (h₁ e m).1.1)
+        (fun e m => (h₂ e m).1.1) (fun e m => (h₁ e m).2) (fun e m => (h₂ e m).2) hos]
 
-/-- Equal pre-hash strings of two JIT requests ⇒ equal signatures and evaluation points, equal
-options, equal extra compile arguments, equal debug flag, equal CFLAGS+SOABI text.
+section EncodeInj
+variable {B : Type} (digest : B → Str) {D : B → Prop}
 
-PARTIAL: the hypotheses `PrefixCode reprP` / `hsemi` (about `repr(points)`) are what the proof
-forces. `PrefixCode npRepr` is false — see the counterexamples below. -/
-theorem encode_inj_partial {reprP : P → Str} (hP : PrefixCode reprP) (hsemi : ∀ p, ';' ∉ reprP p)
-    {env : Env} (henv : env.WF) {r₁ r₂ : Request P}
-    (h₁ : r₁.objs.WF) (h₂ : r₂.objs.WF)
+/-- FULL: equal pre-hash strings of two JIT requests ⇒ equal signatures, equal evaluation points
+(dtype, shape and bytes), equal options, equal extra compile arguments, equal debug flag, equal
+CFLAGS+SOABI text — hence requests that differ in any of these never share a module name, as far as
+the outer SHA-1 separates the strings.
+Explicit hypotheses about the inner digest of the point bytes (SHA-1 in the code): it yields 40 hex
+characters and is injective on the explored byte strings `D`. -/
+theorem encode_inj (hlen : ∀ b, (digest b).length = 40)
+    (hhex : ∀ b, ∀ c ∈ digest b, isHexChar c = true)
+    (hinj : ∀ a b, D a → D b → digest a = digest b → a = b)
+    {env : Env} (henv : env.WF) {r₁ r₂ : Request (Pts B)}
+    (h₁ : r₁.objs.WF (Pts.OK D)) (h₂ : r₂.objs.WF (Pts.OK D))
     (ho₁ : ∀ kv ∈ r₁.options, kv.2.WF) (ho₂ : ∀ kv ∈ r₂.options, kv.2.WF)
     {b₁ b₂ : Bool} (hd₁ : r₁.compile.debug = .bool b₁) (hd₂ : r₂.compile.debug = .bool b₂)
-    {s : Str} (e₁ : encodeRequest reprP env r₁ = some s) (e₂ : encodeRequest reprP env r₂ = some s) :
+    {s : Str} (e₁ : encodeRequest (pointsKey digest) env r₁ = some s)
+    (e₂ : encodeRequest (pointsKey digest) env r₂ = some s) :
     r₁.objs = r₂.objs ∧ r₁.options.Perm r₂.options ∧
     r₁.compile.extraArgs = r₂.compile.extraArgs ∧ r₁.compile.debug = r₂.compile.debug ∧
     strScalar r₁.compile.cflags ++ strScalar r₁.compile.soabi =
       strScalar r₂.compile.cflags ++ strScalar r₂.compile.soabi := by
-  obtain ⟨ho, ht⟩ := encode_objs_tag_inj hP hsemi henv h₁ h₂ e₁ e₂
+  obtain ⟨ho, ht⟩ := encode_objs_tag_inj (pointsKey_prefix digest hlen hinj)
+    (fun p hp => pointsKey_no_semi digest hhex p hp) henv h₁ h₂ e₁ e₂
   unfold moduleTag at ht
   obtain ⟨hs, hc⟩ := optionSignature_prefix reprFlt_inj _ _ _ _ ho₁ ho₂ ht
   unfold compilationSignature at hc
@@ -224,6 +239,8 @@ theorem encode_inj_partial {reprP : P → Str} (hP : PrefixCode reprP) (hsemi : 
   refine ⟨ho, ?_, ha, by rw [hd₁, hd₂, hb], hr'⟩
   exact (sortItems_perm _).symm.trans (hs ▸ sortItems_perm _)
 
+end EncodeInj
+
 /-- Stability: the pre-hash string is a function of the signatures, the point values, the option
 *set* and the compile arguments only — no counter, creation order or hash seed enters, and the
 order in which the option dict was filled does not matter. -/
@@ -233,130 +250,42 @@ theorem encode_stable {reprP : P → Str} {env : Env} {r₁ r₂ : Request P} (h
   unfold encodeRequest moduleTag
   rw [ho, hc, options_order_indep hp hn]
 
-/-! ### Non-vacuity: a points printer that does satisfy the hypotheses -/
+/-! ### Non-vacuity of `encode_inj` -/
 
-/-- Prints the exact numerators of a point list (what a repaired signature could hash). -/
-def exactRepr (l : List Int) : Str := listOf (l.map reprInt)
+/-- A toy digest with the required shape (40 hex characters), injective on `D = {[1], [2]}`. -/
+def toyDigest (b : List Nat) : Str :=
+  List.replicate 39 'a' ++ [if b = [1] then 'b' else 'c']
 
-theorem reprInt_headNe : HeadNe reprInt ']' := by
-  intro a r t h
-  have hm : ']' ∈ reprInt a := by
-    cases hr : reprInt a with
-    | nil =>
-      exfalso
-      unfold reprInt at hr
-      split at hr
-      · simp at hr
-      · exact natDigits_ne_nil _ hr
-    | cons c u =>
-      rw [hr] at h
-      simp only [List.cons_append, List.cons.injEq] at h
-      rw [h.1]; exact List.mem_cons_self
-  have := reprInt_chars hm
-  revert this; decide
-
-theorem exactRepr_prefix : PrefixCode exactRepr := fun a b r s h =>
-  (listOf_inj reprInt_delim reprInt_headNe a b r s (fun _ _ => trivial) (fun _ _ => trivial) h).1
-
-theorem exactRepr_no_semi (l : List Int) : ';' ∉ exactRepr l := by
-  intro hm
-  unfold exactRepr listOf at hm
-  have key : ∀ (xs : List Int), ';' ∉ joinWith (cs! ", ") (xs.map reprInt) := by
-    intro xs
-    induction xs with
-    | nil => simp [joinWith]
-    | cons x xs ih =>
-      rw [List.map_cons, joinWith_cons]
-      intro hm
-      rcases List.mem_append.mp hm with hm | hm
-      · have := reprInt_chars hm
-        revert this; decide
-      · cases xs with
-        | nil => simp [joinTail] at hm
-        | cons y ys =>
-          simp only [List.map_cons, joinTail, List.cons_append, List.nil_append, List.mem_cons] at hm
-          rcases hm with hm | hm | hm
-          · revert hm; decide
-          · revert hm; decide
-          · exact ih hm
-  simp only [List.mem_cons, List.mem_append, List.not_mem_nil, or_false] at hm
-  rcases hm with hm | hm | hm
-  · revert hm; decide
-  · exact key l hm
-  · revert hm; decide
-
-example : exactRepr [1, -2, 30] = cs! "[1, -2, 30]" := by decide
-
-/-- The hypotheses of `encode_inj_partial` are jointly satisfiable (exact point printer, a concrete
-environment, a 128-hex signature, the default-like option dict). -/
-example : PrefixCode exactRepr ∧ (∀ l, ';' ∉ exactRepr l) ∧
+example : (∀ b, (toyDigest b).length = 40) ∧ (∀ b, ∀ c ∈ toyDigest b, isHexChar c = true) ∧
+    (∀ a b, (a = [1] ∨ a = [2]) → (b = [1] ∨ b = [2]) → toyDigest a = toyDigest b → a = b) ∧
     Env.WF ⟨cs! "0.11.0.dev0", cs! "79f1a657d2b8defd18bec429a24080d2534220eb"⟩ ∧
-    Objs.WF (Objs.exprs [(List.replicate 128 'a', [1, 2])]) ∧ (∀ kv ∈ sampleOptions, kv.2.WF) := by
-  refine ⟨exactRepr_prefix, exactRepr_no_semi, ⟨by decide, by decide⟩, ?_, ?_⟩
+    Objs.WF (Pts.OK (fun a => a = [1] ∨ a = [2]))
+      (Objs.exprs [(List.replicate 128 'a', (⟨cs! "<f8", [2, 2], [1]⟩ : Pts (List Nat)))]) ∧
+    (∀ kv ∈ sampleOptions, kv.2.WF) := by
+  refine ⟨fun b => by simp [toyDigest], ?_, ?_, ⟨by decide, by decide⟩, ?_, ?_⟩
+  · intro b c hc
+    simp only [toyDigest, List.mem_append, List.mem_cons, List.not_mem_nil, or_false] at hc
+    rcases hc with hc | hc
+    · rw [(List.mem_replicate.mp hc).2]; decide
+    · subst hc; split <;> decide
+  · rintro a b (rfl | rfl) (rfl | rfl) h <;> first | rfl | (revert h; decide)
   · intro e he
     simp only [List.mem_cons, List.not_mem_nil, or_false] at he
     subst he
-    exact ⟨by simp, fun c hc => by rw [(List.mem_replicate.mp hc).2]; decide⟩
+    exact ⟨⟨by simp, fun c hc => by rw [(List.mem_replicate.mp hc).2]; decide⟩, by decide, by decide, Or.inl rfl⟩
   · intro kv h
     simp only [sampleOptions, List.mem_cons, List.not_mem_nil, or_false] at h
     rcases h with rfl | rfl | rfl | rfl | rfl | rfl <;> simp [Scalar.OK, Flt.Norm]
 
-example : encodeRequest exactRepr ⟨cs! "0.1", cs! "ab"⟩
-    ⟨.exprs [(cs! "f00d", [1, 2])], [(cs! "k", .int 1)], ⟨[cs! "-O2"], .bool false, .str (cs! "-g"), .none⟩⟩ =
-    some (cs! "f00d[1, 2];0.1;ab;expression;[('k', 1)]['-O2']False-gNone") := by decide
+example : pointsKey toyDigest ⟨cs! "<f8", [501, 2], [1]⟩ =
+    cs! "<f8(501, 2)" ++ List.replicate 39 'a' ++ ['b'] := by decide
+example : shapeRepr [3] = cs! "(3,)" ∧ shapeRepr [] = cs! "()" := by decide
 
-/-! ### The real printer is not injective (DESIGN §7 F4) -/
-
-/-- `repr(points)` as the model of NumPy prints it (`<unsupported>` outside the modelled domain). -/
-def reprNp (p : Points) : Str := (npRepr p).getD (cs! "<unsupported>")
-
-/-- Whatever collides under `reprP` collides under `encode`. -/
-theorem encode_collides {reprP : P → Str} {p q : P} (h : reprP p = reprP q) (env : Env)
-    (sig tag : Str) :
-    encode reprP env (.exprs [(sig, p)]) tag = encode reprP env (.exprs [(sig, q)]) tag := by
-  simp [encode, kindOf, objectSignature, h]
-
-/-- 0.123456789 and 0.123456788 as binary64 values (numerator / 2^k). -/
-def ptsA : Points := ⟨[[⟨8895999182988127, 56⟩, ⟨1, 1⟩]], false⟩
-def ptsB : Points := ⟨[[⟨8895999110930533, 56⟩, ⟨1, 1⟩]], false⟩
-
-theorem npRepr_rounds_counterexample :
-    ptsA ≠ ptsB ∧ npRepr ptsA = npRepr ptsB ∧ npRepr ptsA = some (cs! "array([[0.12345679, 0.5       ]])") := by
-  decide +kernel
-
-/-- Two expression requests that differ in an evaluation point (9th significant digit) and have
-the same pre-hash string, hence the same module name: the negation of the full `encode_inj`. -/
-theorem encode_inj_counterexample (env : Env) (sig tag : Str) :
-    (Objs.exprs [(sig, ptsA)] ≠ Objs.exprs [(sig, ptsB)]) ∧
-    encode reprNp env (.exprs [(sig, ptsA)]) tag = encode reprNp env (.exprs [(sig, ptsB)]) tag := by
-  refine ⟨?_, encode_collides ?_ env sig tag⟩
-  · intro h
-    injection h with h
-    simp only [List.cons.injEq, Prod.mk.injEq, and_true, true_and] at h
-    exact npRepr_rounds_counterexample.1 h
-  · unfold reprNp
-    rw [npRepr_rounds_counterexample.2.1]
-
-/-- 502 points (1004 entries > threshold 1000); the two arrays differ in row 250 only. -/
-def ptsBig (mid : Dy) : Points :=
-  ⟨List.replicate 250 [⟨1, 2⟩, ⟨1, 2⟩] ++ [[mid, ⟨1, 2⟩]] ++ List.replicate 251 [⟨1, 2⟩, ⟨1, 2⟩], false⟩
-
-theorem npRepr_elides_counterexample :
-    ptsBig ⟨1, 1⟩ ≠ ptsBig ⟨1, 3⟩ ∧ npRepr (ptsBig ⟨1, 1⟩) = npRepr (ptsBig ⟨1, 3⟩) ∧
-    (npRepr (ptsBig ⟨1, 1⟩)).isSome = true := by
-  decide +kernel
-
-theorem encode_inj_counterexample_elided (env : Env) (sig tag : Str) :
-    (Objs.exprs [(sig, ptsBig ⟨1, 1⟩)] ≠ Objs.exprs [(sig, ptsBig ⟨1, 3⟩)]) ∧
-    encode reprNp env (.exprs [(sig, ptsBig ⟨1, 1⟩)]) tag =
-      encode reprNp env (.exprs [(sig, ptsBig ⟨1, 3⟩)]) tag := by
-  refine ⟨?_, encode_collides ?_ env sig tag⟩
-  · intro h
-    injection h with h
-    simp only [List.cons.injEq, Prod.mk.injEq, and_true, true_and] at h
-    exact npRepr_elides_counterexample.1 h
-  · unfold reprNp
-    rw [npRepr_elides_counterexample.2.1]
+example : encodeRequest (pointsKey toyDigest) ⟨cs! "0.1", cs! "ab"⟩
+    ⟨.exprs [(cs! "f00d", ⟨cs! "<f8", [1, 2], [2]⟩)], [(cs! "k", .int 1)],
+      ⟨[cs! "-O2"], .bool false, .str (cs! "-g"), .none⟩⟩ =
+    some (cs! "f00d<f8(1, 2)" ++ List.replicate 39 'a' ++ cs! "c;0.1;ab;expression;[('k', 1)]['-O2']False-gNone") := by
+  decide
 
 /-! ## Identifiers -/
 
@@ -369,14 +298,14 @@ theorem ident_valid (hsha : ∀ s, (sha1 s).all isHexChar = true) (sig pre itype
     (sub : List Scalar) (cell : Str) (p : P) (r : Request P) (hcell : cell.all isIdentChar = true) :
     validIdent (formName sha1 env sig pre i) = true ∧
     validIdent (integralFactoryName sha1 env sig pre itype i sub cell) = true ∧
-    validIdent (expressionName sha1 reprP env sig p pre) = true ∧
+    (∀ id, validIdent (expressionName sha1 reprP env sig p pre id) = true) ∧
     (∀ m, moduleName sha1 reprP env r = some m → validIdent m = true) := by
   have hid : ∀ s, (sha1 s).all isIdentChar = true := by
     intro s
     have := hsha s
     simp only [List.all_eq_true] at this ⊢
     exact fun c hc => isIdent_of_hex (this c hc)
-  refine ⟨validIdent_append (by decide) (hid _), ?_, validIdent_append (by decide) (hid _), ?_⟩
+  refine ⟨validIdent_append (by decide) (hid _), ?_, fun _ => validIdent_append (by decide) (hid _), ?_⟩
   · unfold integralFactoryName integralName
     rw [List.append_assoc]
     refine validIdent_append (by decide) (all_ident_append (hid _) ?_)
@@ -414,7 +343,7 @@ example : validIdent (cs! "9lives") = false := by decide
 inductive GenObj (P : Type) where
   | form (sig : Str) (formId : Int)
   | integral (sig : Str) (formId : Int) (d : IntegralData) (cell : Str)
-  | expression (sig : Str) (p : P)
+  | expression (sig : Str) (p : P) (id : Int)
 
 variable (pre : Str)
 
@@ -422,12 +351,12 @@ variable (pre : Str)
 def GenObj.prehash : GenObj P → Str
   | .form sig i => formPre env sig pre i
   | .integral sig i d _ => integralPre env sig pre d.itype i d.sub
-  | .expression sig p => expressionPre reprP env sig p pre
+  | .expression sig p id => expressionPre reprP env sig p pre (some id)
 
 def GenObj.name : GenObj P → Str
   | .form sig i => formName sha1 env sig pre i
   | .integral sig i d cell => integralFactoryName sha1 env sig pre d.itype i d.sub cell
-  | .expression sig p => expressionName sha1 reprP env sig p pre
+  | .expression sig p id => expressionName sha1 reprP env sig p pre (some id)
 
 /-- What must differ between two objects: the kind, the hashed string, or the cell suffix. -/
 def GenObj.key : GenObj P → Nat × Str × Str
@@ -457,7 +386,7 @@ theorem names_distinct (hlen : ∀ s, (sha1 s).length = 40) (objs : List (GenObj
       simp only [GenObj.key, Prod.mk.injEq, and_true, true_and]
       exact hab hn
     | integral s' i' d' c' => simp [GenObj.name, formName, integralFactoryName, integralName] at hn
-    | expression s' p' => simp [GenObj.name, formName, expressionName] at hn
+    | expression s' p' k' => simp [GenObj.name, formName, expressionName] at hn
   | integral s i d c =>
     cases b with
     | form s' i' => simp [GenObj.name, formName, integralFactoryName, integralName] at hn
@@ -468,14 +397,14 @@ theorem names_distinct (hlen : ∀ s, (sha1 s).length = 40) (objs : List (GenObj
       simp only [List.cons.injEq, true_and] at h2
       simp only [GenObj.key, Prod.mk.injEq, true_and]
       exact ⟨hab h1, h2⟩
-    | expression s' p' =>
+    | expression s' p' k' =>
       simp [GenObj.name, expressionName, integralFactoryName, integralName] at hn
-  | expression s p =>
+  | expression s p k =>
     cases b with
     | form s' i' => simp [GenObj.name, formName, expressionName] at hn
     | integral s' i' d' c' =>
       simp [GenObj.name, expressionName, integralFactoryName, integralName] at hn
-    | expression s' p' =>
+    | expression s' p' k' =>
       simp only [GenObj.name, expressionName, List.cons_append, List.nil_append, List.cons.injEq,
         true_and] at hn
       simp only [GenObj.key, Prod.mk.injEq, and_true, true_and]
@@ -541,11 +470,53 @@ theorem names_distinct_counterexample (sha1 : Str → Str) (env : Env) (sig pre 
   refine ⟨by decide, ?_⟩
   simp [GenObj.name]
 
-/-- …and `expression_name` has no index in its tag: the same expression listed twice in one module
-gets one name twice. -/
-theorem names_distinct_counterexample_expression (sha1 : Str → Str) (env : Env) (sig pre : Str) :
-    ¬ ([GenObj.expression (P := Unit) sig (), GenObj.expression sig ()].map
-          (GenObj.name sha1 (fun _ => []) env pre)).Nodup := by
-  simp [GenObj.name]
+/-- The hashed strings of two expressions of a module are equal only if signature+points text,
+prefix and position are. -/
+theorem expressionPre_inj {reprP : P → Str} {env : Env} (henv : env.WF) {s₁ s₂ pre₁ pre₂ : Str}
+    {p₁ p₂ : P} {i j : Int} (n₁ : ';' ∉ s₁ ++ reprP p₁) (n₂ : ';' ∉ s₂ ++ reprP p₂)
+    (h : expressionPre reprP env s₁ p₁ pre₁ (some i) = expressionPre reprP env s₂ p₂ pre₂ (some j)) :
+    s₁ ++ reprP p₁ = s₂ ++ reprP p₂ ∧ pre₁ = pre₂ ∧ i = j := by
+  unfold expressionPre at h
+  obtain ⟨hl, ht⟩ := join_inj (xs := [s₁ ++ reprP p₁, env.version, env.ufcxHash, cs! "expression"])
+    (ys := [s₂ ++ reprP p₂, env.version, env.ufcxHash, cs! "expression"]) rfl
+    (by
+      intro x hx
+      simp only [List.mem_cons, List.not_mem_nil, or_false] at hx
+      rcases hx with rfl | rfl | rfl | rfl
+      · exact n₁
+      · exact henv.1
+      · exact henv.2
+      · decide)
+    (by
+      intro x hx
+      simp only [List.mem_cons, List.not_mem_nil, or_false] at hx
+      rcases hx with rfl | rfl | rfl | rfl
+      · exact n₂
+      · exact henv.1
+      · exact henv.2
+      · decide)
+    (by simpa using h)
+  simp only [List.cons.injEq, and_true] at hl
+  obtain ⟨h1, h2⟩ := tag_inj.2.2.1 _ _ _ _ ht
+  exact ⟨hl, h1, h2⟩
+
+/-- FULL (replaces the former counterexample): expressions at different positions of one module
+have different keys — even the same (expression, points) listed twice — so `names_distinct`
+applies to every expression module. -/
+theorem expression_names_distinct {reprP : P → Str} {env : Env} (henv : env.WF) (pre : Str)
+    {s₁ s₂ : Str} {p₁ p₂ : P} {i j : Int} (n₁ : ';' ∉ s₁ ++ reprP p₁) (n₂ : ';' ∉ s₂ ++ reprP p₂)
+    (hij : i ≠ j) :
+    (GenObj.expression s₁ p₁ i).key reprP env pre ≠ (GenObj.expression s₂ p₂ j).key reprP env pre := by
+  intro h
+  simp only [GenObj.key, GenObj.prehash, Prod.mk.injEq, and_true, true_and] at h
+  exact hij (expressionPre_inj henv n₁ n₂ h).2.2
+
+/-- The same expression twice in one module: two different names (toy hash = last 40 characters). -/
+example :
+    let sha : Str → Str := fun s => (s.reverse.take 40).reverse.map (fun c => if isHexChar c then c else 'a')
+    let e : Env := ⟨cs! "0.1", cs! "ab"⟩
+    ([GenObj.expression (P := Unit) (cs! "aa") () 0, GenObj.expression (cs! "aa") () 1].map
+      (GenObj.name sha (fun _ => []) e (cs! "m"))).Nodup := by
+  decide +kernel
 
 end Ffcx.Naming
